@@ -141,6 +141,21 @@ def lambda_always_locked(tu, fns, flows, lam):
     return False
 
 
+def same_hold(g, wf, fn, pa, pb):
+    """positions pa and pb are executed in one hold of the mutex: the lock is held at both and no unlock()/wait lies on a
+    path between them (in the order in which they are executed)"""
+    if pa is None or pb is None or wf.held_at_pos(pa) is not True or wf.held_at_pos(pb) is not True:
+        return False
+    first, second = (pa, pb) if g.dominates(pa, pb) else (pb, pa) if g.dominates(pb, pa) else (None, None)
+    if first is None:
+        return False
+    rel = [g.pos(u) for u in fn.nodes() if "callee" in u and u.get("member_call") and u["callee"]["name"] in ("unlock", "wait", "wait_for", "wait_until") and g.pos(u)]
+    for r in rel:
+        if g.path_between_avoiding(first, r, [first]) is not None and g.path_between_avoiding(r, second, [first]) is not None:
+            return False
+    return True
+
+
 def run(ck):
     ck.explanation = (
         "Lock-state dataflow (engine B) over the CFG of every ThreadPool member: mutex_ held / not held at every element, through RAII guards, "
@@ -282,8 +297,9 @@ def run(ck):
     pcall = g.pos(call)
     okb = len(incs) == 1 and len(decs) == 1 and len(dones) == 1 and g.dominates(g.pos(incs[0]), pcall) and \
         g.postdominates(g.pos(decs[0]), pcall) and g.postdominates(g.pos(dones[0]), pcall) and \
-        wf.held_at(incs[0]) is True and g.dominates(g.pos(incs[0]), pp)
-    # the increment must precede the pop in the same hold: otherwise jobs_.empty() && busy_==0 is observable while a job is in flight
+        wf.held_at(incs[0]) is True and same_hold(g, wf, worker, g.pos(incs[0]), pp)
+    # the increment and the pop happen in one hold of the mutex (either order): otherwise jobs_.empty() && busy_ == 0 is observable
+    # by loop_until_empty(), which reads both under the lock, while a job is in flight
     if okb and g.dominates(g.pos(dones[0]), g.pos(decs[0])):
         ck.ok("BUSY-PAIR", worker.qname, "++busy_ (under the lock, before the job leaves the queue) ... job() ... ++done_, --busy_ on every path")
     else:
